@@ -315,6 +315,56 @@ def sync_before_ok(P):
     return True, "", [f.loc, s.loc]
 
 
+def buffer_rule(chk, P, key):
+    """Shared with C13 (one complete record per line).  See the docstring of the nested rule."""
+    def buffer_holds_one_event():
+        """The record queued for an event is the buffer the writer filled for *that* event - and the buffer is empty when the writer gets it: it is
+        built fresh in this activation (FileBuf::new), or, if it is a reused one, it is emptied on every path before the writer sees it or on
+        every path after the writer ran (also the failing one).  Otherwise the bytes a failed writer left behind prefix the next event of that
+        thread: one record holding parts of two events."""
+        b = P.impl_method("emit_core::emitter::Emitter", "emit_file::FileSetInner", "emit")
+        ws = [c for c in b.calls(normal_only=True) if c.callee.get("name") in ("call", "call_mut", "call_once") and
+              (mir.o_field_path(b.origin(c.args[0]))[1] or [None])[-1] == "writer"]
+        if len(ws) != 1:
+            raise mir.AnchorMissing("the call of the configured writer in FileSetInner::emit (found %d)" % len(ws))
+        w = ws[0]
+        tup = b.origin(w.args[1])
+        bo = tup[2][0] if tup[0] == "agg" and tup[2] else tup
+        while bo[0] in ("ref", "deref", "copy", "field"):
+            bo = bo[1]
+        snd = [c for c in b.calls(normal_only=True) if (c.callee.get("path") or "").startswith("emit_batcher::Sender::<") and c.callee.get("name") == "send"]
+        if len(snd) != 1:
+            raise mir.AnchorMissing("Sender::send in FileSetInner::emit")
+        if bo[0] != "call":
+            return False, "the writer is given %s as its buffer" % o_str(bo), [], w.loc
+        src = bo[1]
+        if ("callsite", src.bb) not in common.roots(b.origin(snd[0].args[1])):
+            return False, "what is queued (%s) is not the buffer the writer filled" % o_str(b.origin(snd[0].args[1])), [], snd[0].loc
+        fresh = (src.callee.get("path") or "") in ("emit_file::FileBuf::new",) or \
+            (src.callee.get("name") in ("new", "default", "with_capacity") and not src.args and "FileBuf" in (src.callee.get("full") or ""))
+        if fresh and not b.in_cycle(src.bb):
+            return True, "", [src.loc, w.loc, snd[0].loc]
+        clears = set()
+        for c in b.calls(normal_only=True):
+            if c.callee.get("name") in ("clear", "truncate") and ("callsite", src.bb) in common.roots(b.origin(c.args[0], through_calls=("deref_mut", "deref"))):
+                if c.callee.get("name") == "truncate" and mir.o_const_value(b.origin(c.args[1])) != 0:
+                    continue
+                clears.add(c.bb)
+        before = bool(clears) and b.must_pass(clears, start=src.bb, ends={w.bb})
+        after = bool(clears) and b.must_pass(clears, start=w.bb)
+        if not (before or after):
+            return False, ("the buffer handed to the writer comes from %s (not a fresh FileBuf) and is not emptied on every path - neither before the writer "
+                           "gets it nor after it ran (the path on which the writer failed keeps its partial output): the next event formatted into "
+                           "it is queued with another event's bytes in front" % o_str(bo)), [], w.loc
+        return True, "", [src.loc, w.loc, snd[0].loc]
+    def newest_kept():
+        from . import c11
+        return c11.order_agreement(P)
+    chk.ob("C10.R9:retention-spares-the-newest", "retention removes from the oldest end of the listing: the file holding the batch just acknowledged is never the one deleted",
+           newest_kept)
+    chk.ob(key, "the writer's buffer is empty when it gets it and is what is queued", buffer_holds_one_event)
+
+
 def run(chk):
     P = mir.Program("K1")
     chk.use_program(P)
@@ -515,52 +565,7 @@ def run(chk):
         return False, "FileSetInner::emit does not reach Sender::send", [], b.span
     chk.ob("C10.R6:separator", "every queued record ends with the separator", separator_at_emit)
 
-    def buffer_holds_one_event():
-        """The record queued for an event is the buffer the writer filled for *that* event - and the buffer is empty when the writer gets it: it is
-        built fresh in this activation (FileBuf::new), or, if it is a reused one, it is emptied on every path before the writer sees it or on
-        every path after the writer ran (also the failing one).  Otherwise the bytes a failed writer left behind prefix the next event of that
-        thread: one record holding parts of two events."""
-        b = P.impl_method("emit_core::emitter::Emitter", "emit_file::FileSetInner", "emit")
-        ws = [c for c in b.calls(normal_only=True) if c.callee.get("name") in ("call", "call_mut", "call_once") and
-              (mir.o_field_path(b.origin(c.args[0]))[1] or [None])[-1] == "writer"]
-        if len(ws) != 1:
-            raise mir.AnchorMissing("the call of the configured writer in FileSetInner::emit (found %d)" % len(ws))
-        w = ws[0]
-        tup = b.origin(w.args[1])
-        bo = tup[2][0] if tup[0] == "agg" and tup[2] else tup
-        while bo[0] in ("ref", "deref", "copy", "field"):
-            bo = bo[1]
-        snd = [c for c in b.calls(normal_only=True) if (c.callee.get("path") or "").startswith("emit_batcher::Sender::<") and c.callee.get("name") == "send"]
-        if len(snd) != 1:
-            raise mir.AnchorMissing("Sender::send in FileSetInner::emit")
-        if bo[0] != "call":
-            return False, "the writer is given %s as its buffer" % o_str(bo), [], w.loc
-        src = bo[1]
-        if ("callsite", src.bb) not in common.roots(b.origin(snd[0].args[1])):
-            return False, "what is queued (%s) is not the buffer the writer filled" % o_str(b.origin(snd[0].args[1])), [], snd[0].loc
-        fresh = (src.callee.get("path") or "") in ("emit_file::FileBuf::new",) or \
-            (src.callee.get("name") in ("new", "default", "with_capacity") and not src.args and "FileBuf" in (src.callee.get("full") or ""))
-        if fresh and not b.in_cycle(src.bb):
-            return True, "", [src.loc, w.loc, snd[0].loc]
-        clears = set()
-        for c in b.calls(normal_only=True):
-            if c.callee.get("name") in ("clear", "truncate") and ("callsite", src.bb) in common.roots(b.origin(c.args[0], through_calls=("deref_mut", "deref"))):
-                if c.callee.get("name") == "truncate" and mir.o_const_value(b.origin(c.args[1])) != 0:
-                    continue
-                clears.add(c.bb)
-        before = bool(clears) and b.must_pass(clears, start=src.bb, ends={w.bb})
-        after = bool(clears) and b.must_pass(clears, start=w.bb)
-        if not (before or after):
-            return False, ("the buffer handed to the writer comes from %s (not a fresh FileBuf) and is not emptied on every path - neither before the writer "
-                           "gets it nor after it ran (the path on which the writer failed keeps its partial output): the next event formatted into "
-                           "it is queued with another event's bytes in front" % o_str(bo)), [], w.loc
-        return True, "", [src.loc, w.loc, snd[0].loc]
-    def newest_kept():
-        from . import c11
-        return c11.order_agreement(P)
-    chk.ob("C10.R9:retention-spares-the-newest", "retention removes from the oldest end of the listing: the file holding the batch just acknowledged is never the one deleted",
-           newest_kept)
-    chk.ob("C10.R6:buffer-holds-one-event", "the writer's buffer is empty when it gets it and is what is queued", buffer_holds_one_event)
+    buffer_rule(chk, P, "C10.R6:buffer-holds-one-event")
 
     def advance():
         b = P.body("emit_file::EventBatch::advance")
@@ -667,4 +672,7 @@ def run(chk):
     from . import batcher
     batcher.bounded_retry(chk, P, "C10.batcher")
     batcher.retry_remainder(chk, P, "C10.batcher")
+    # "reported as written" reaches the user as a successful flush: the flush decision table and the receiver's in-batch flag belong here too
+    batcher.when_flushed_table(chk, P, "C10.batcher")
+    batcher.receiver_flags(chk, P, "C10.batcher")
     return chk
